@@ -45,7 +45,7 @@ DEC_IND = ["natural", "random", "random", "reject_all", "accept_all", "reject_on
 def make_plan(seed: int, tier: str) -> dict:
     rng = SimRng(seed)
     st = rng.stream("plan")
-    cfg = stepsim.gen_world_cfg(rng.stream("world"), allow_mixture=(tier == "thorough"))
+    cfg = stepsim.gen_world_cfg(rng.stream("world"), allow_mixture=True)
     n_steps = st.randint(3, 14 if tier == "quick" else 30)
     steps = []
     fault_free = st.bernoulli(0.15)
